@@ -7,6 +7,12 @@ import raftcheck as rc
 from common import (Inconclusive, Scratch, Verdict, build_test_binary, env_seed, log,
                     write_evidence)
 
+# exhaustive MCRaft configurations: (cfg, timeout s, workers)
+MC_CFGS = {
+    "quick": [("MC_raft_quick.cfg", 600, 8)],
+    "thorough": [("MC_raft_quick.cfg", 600, 8), ("MC_raft_core3.cfg", 3000, 14)],
+}
+
 TIERS = {
     # batches per combo, traces per batch, steps per trace
     "quick": (2, 60, 300),
@@ -14,11 +20,19 @@ TIERS = {
 }
 
 
+# C17: fault prefix of `steps` steps, then `progress` fair rounds before and after the probes
+TIERS_C17 = {
+    "quick": (2, 40, 150, 40),
+    "thorough": (20, 120, 250, 60),
+}
+
+
 def replay(prop, path, scr, binary):
     with open(path) as fh:
         r = json.load(fh)
     out = scr.path("traces", "replay.ndjson")
-    rc.gen_traces(binary, out, r["seed"], r["trace"], 1, r["steps"], r["prevote"], r["checkquorum"])
+    extra = {"VERIF_PROGRESS": r["progress"]} if r.get("progress") else None
+    rc.gen_traces(binary, out, r["seed"], r["trace"], 1, r["steps"], r["prevote"], r["checkquorum"], extra)
     rep = rc.validate_trace_file(scr, out, r["prevote"], r["checkquorum"], "replay")
     meta = {"file": out, "prevote": r["prevote"], "checkquorum": r["checkquorum"], "first": r["trace"],
             "traces": 1, "steps": r["steps"], "seed": r["seed"], "stats": {}}
@@ -35,9 +49,37 @@ def check(prop, tier, replay_path):
         if replay_path:
             results = replay(prop, replay_path, scr, binary)
         else:
-            nb, tpb, steps = TIERS[tier]
-            results = rc.run_rsim_batches(scr, binary, seed, nb, tpb, steps)
+            if prop == "C17":
+                nb, tpb, steps, progress = TIERS_C17[tier]
+                results = rc.run_rsim_batches(scr, binary, seed, nb, tpb, steps,
+                                              extra_env={"VERIF_PROGRESS": progress})
+                for m, _ in results:
+                    m["progress"] = progress
+            else:
+                nb, tpb, steps = TIERS[tier]
+                results = rc.run_rsim_batches(scr, binary, seed, nb, tpb, steps)
         nviol, ndrift = rc.judge(prop, verdict, results, scr)
+        # exhaustive exploration of the specification itself (MCRaft) for small constants
+        mc_runs = []
+        mc_states = mc_trans = 0
+        if not replay_path:
+            from common import run_tlc, SPEC
+            import os as _os
+            for cfgname, timeout, workers in MC_CFGS[tier]:
+                res = run_tlc(scr, "MCRaft", _os.path.join(SPEC, cfgname), workers=workers, timeout=timeout,
+                              tag="mc." + cfgname, jvm=["-Xmx14g"])
+                if res.error == "timeout":
+                    mc_runs.append({"cfg": cfgname, "distinct": res.distinct, "generated": res.generated,
+                                    "complete": False, "wall_s": round(res.wall, 1)})
+                elif res.error or res.violated:
+                    raise Inconclusive("model checking of MCRaft/%s failed: %s - a counterexample in the model alone means the "
+                                       "specification is wrong, never a violation of the code\n%s"
+                                       % (cfgname, res.error or res.violated, res.out[-2500:]))
+                else:
+                    mc_runs.append({"cfg": cfgname, "distinct": res.distinct, "generated": res.generated,
+                                    "depth": res.depth, "complete": True, "wall_s": round(res.wall, 1)})
+                mc_states += res.distinct
+                mc_trans += res.generated
         events = sum(r["lines"] for _, r in results)
         traces = sum(m["traces"] for m, _ in results)
         conf_ok = sum(m["traces"] for m, r in results if r["conformance_evaluated"]) - \
@@ -56,8 +98,9 @@ def check(prop, tier, replay_path):
                     e.pop("post", None)
                     sample.append(e)
         cov = {
-            "states": max(1, sum(r["states"] for _, r in results)),
-            "transitions": max(1, events),
+            "states": max(1, sum(r["states"] for _, r in results) + mc_states),
+            "transitions": max(1, events + mc_trans),
+            "tlc_exhaustive": mc_runs,
             "traces_validated_against_impl": max(0, conf_ok),
             "samples": [{"trace_prefix_without_state": sample}],
             "evaluations": events,
